@@ -35,6 +35,10 @@ def build(spec, pool):
         return spec[1]
     if k == 'date':
         return EPOCH + datetime.timedelta(microseconds=int(spec[1]))
+    if k == 'awaredate':          # a timezone-aware datetime supplied by the host
+        return datetime.datetime.fromisoformat(spec[1])
+    if k == 'dateonly':           # a plain datetime.date supplied by the host
+        return datetime.date.fromisoformat(spec[1])
     if k == 'arr':
         a = []
         pool[spec[1]] = a
